@@ -34,6 +34,36 @@ def c16(pid, tier, t0):
         "the editor-level clause (edits keep text valid UTF-8) is decided by the C08 exploration, which validates every line of every reached state"])
 
 
+@check("C17")
+def c17(pid, tier, t0):
+    exe = nv.build_harness("c17_ren", "plain", ["c17_ren.c", "peek_uc.c"], replace=["uc"])
+    res = nv.run_shards(exe, ["tier=" + tier, "deadline=%d" % dl(tier)], nv.NCPU, dl(tier) + 60)
+    return nv.finish(pid, tier, t0, res, {
+        "rule": "every code point U+0001..U+10FFFF (width class and bell class: bisection vs linear scan of the same tables, tables checked sorted/disjoint); "
+                "every line of <= maxlen characters over {a, tab, U+4E00 wide, U+0300 zero-width, U+064E placeholder, U+0628 Arabic, U+200C ZWNJ} + newline "
+                "x order {0,1,2} x td {-2..2} x lim {3,256}; non-trivial = contains a non-'a' character / code point with width != 1 or bell class",
+        "depth_bound": res.stats.get("maxlen"),
+        "explanation": "tiling in visual order, ren_pos/ren_off round trip for every cell, ren_next left/right neighbours, ren_cursor inside the cell span, ren_noeol, ren_wid",
+    }, ["cell widths of the reference: tab to the next multiple of 8, configured placeholders their declared width, bell-class characters one cell (drawn as the replacement placeholder), else the table class",
+        "the h/l/| clause on the real binary is covered by the C07 exploration"])
+
+
+@check("C18")
+def c18(pid, tier, t0):
+    exe = nv.build_harness("c18_bidi", "asan", ["c18_bidi.c", "peek_uc.c"], replace=["uc"])
+    res = nv.run_shards(exe, ["tier=" + tier, "deadline=%d" % dl(tier)], nv.NCPU, dl(tier) + 60)
+    return nv.finish(pid, tier, t0, res, {
+        "rule": "every line of <= maxlen characters over {a,1,space,-,(,U+0628,U+0627,U+064E,U+200C,U+200D} + newline, and of <= maxlen-2 with the mark characters "
+                "$ \\ { } [ ] * added, x td {-2..2}; layout x order {0,1,2} x lim {2,256}; shaping: every code point of the Arabic blocks x 11 previous x 11 next neighbours "
+                "x 0..2 combining marks on each side; non-trivial = line mixing both directions / context where a joined form is expected",
+        "depth_bound": res.stats.get("maxlen"),
+        "explanation": "AddressSanitizer build; permutation + terminator last on every line; exact run reversal vs a hand-written class scanner on lines without mark characters; "
+                       "ren_position follows the same visual order when reordering is enabled and logical order otherwise; shaping vs Unicode decomposition data (python unicodedata)",
+    }, ["reference direction classes hard-code the subset of conf.h's right-to-left/neutral sets that occurs in the alphabet",
+        "on lines containing mark characters only the permutation invariant and memory safety are checked",
+        "letters outside the editor's joining table may stay unshaped (the property allows replacing only by a correct form)"])
+
+
 def replay(path):
     print("replay artefact:")
     print(open(path).read())
